@@ -154,7 +154,7 @@ def _cmp_key(test, pol, rf):
     return (k1, rel)
 
 
-def compare(fn_node, ref_node, names=None, table=None, init_ok=(), skip_under=()):
+def compare(fn_node, ref_node, names=None, table=None, init_ok=(), skip_under=(), strict_guards=False):
     """Compare the definitions of `fn_node` with those of the reference `ref_node`.
 
     Returns a dict: `mismatch` (definite deviations: [(name, text, lineno)]), `unsure` (guards over other operands,
@@ -264,9 +264,20 @@ def compare(fn_node, ref_node, names=None, table=None, init_ok=(), skip_under=()
                 res["mismatch"].append((nm, f"`{nm} = {ast.unparse(rhs)[:90]}` is none of the reference's definitions of `{nm}` ({'; '.join('`' + ast.unparse(r)[:70] + '`' for _w, _g, r in refs)})", ln))
                 continue
             gk = [_cmp_key(tst, pol, rfF) for tst, pol in F.guards(nid)]
+            gk2 = None
             best = None
-            for i in cands:
+            rank = {"same": 0, "flipped": 1, "other": 2}
+            for i in sorted(cands, key=lambda c_: c_ in used):  # a reference definition not matched yet first
                 verdict = _guards_agree(gk, refs[i][1])
+                if verdict != "same":
+                    # second chance: both guard lists with every single-definition local expanded (a renamed
+                    # intermediate such as `new_y_new` / `y_candidate` in a guard)
+                    if gk2 is None:
+                        gk2 = [_cmp_key(tst, pol, rfF2) for tst, pol in F.guards(nid)]
+                    rg2 = [_cmp_key(tst, pol, rfR2) for tst, pol in R.guards(R.defs[nm][i][1])]
+                    v2 = _guards_agree(gk2, rg2)
+                    if rank[v2] < rank[verdict]:
+                        verdict = v2
                 if verdict == "same":
                     best = ("same", i)
                     break
@@ -277,6 +288,8 @@ def compare(fn_node, ref_node, names=None, table=None, init_ok=(), skip_under=()
                 res["matched"] += 1
             elif best[0] == "flipped":
                 res["mismatch"].append((nm, f"`{nm} = {ast.unparse(rhs)[:70]}` is assigned under the opposite condition to the reference's (same operands, other comparator / polarity): {_describe(F.guards(nid))} instead of {_describe(R.guards(R.defs[nm][best[1]][1]))}", ln))
+            elif strict_guards:
+                res["mismatch"].append((nm, f"`{nm} = {ast.unparse(rhs)[:70]}` is guarded by {_describe(F.guards(nid))}, the reference's by {_describe(R.guards(R.defs[nm][best[1]][1]))}", ln))
             else:
                 res["unsure"].append((nm, f"`{nm} = {ast.unparse(rhs)[:70]}` is guarded by {_describe(F.guards(nid))}, the reference's by {_describe(R.guards(R.defs[nm][best[1]][1]))}", ln))
         for i, (_w, _g, r) in enumerate(refs):
